@@ -25,6 +25,9 @@ Qed.
 Lemma dz_NoDup_app_r {A} (a b : list A) : NoDup (a ++ b) -> NoDup b.
 Proof. induction a as [|x a IH]; intros H; [exact H|]. cbn [app] in H. inversion H; subst. auto. Qed.
 
+Lemma dz_nth_all_none {A B} (l : list A) : forall v, nth v (map (fun _ => @None B) l) None = None.
+Proof. induction l as [|a l IH]; intros [|v]; cbn [map nth]; auto. Qed.
+
 Section Opt.
   Variable h : graph.
   Hypothesis Hwf : wfg h.
@@ -137,8 +140,8 @@ Section Opt.
       assert (Hheap : (forall v, In v (dj_heap Z st') <-> (v = w \/ In v (dj_heap Z st)))).
       { destruct Hcase as [[_ Hh]|(e0 & dw & _ & _ & _ & Hup)].
         - rewrite Hh. intros v. split.
-          + intros Hv. apply (Permutation_in _ (hp_push_perm _ _ _ _ _)) in Hv. exact Hv.
-          + intros Hv. apply (Permutation_in _ (Permutation_sym (hp_push_perm _ _ _ _ _))). exact Hv.
+          + intros Hv. apply (Permutation_in _ (hp_push_perm _ _ _ _ _)) in Hv. destruct Hv as [<-|Hv]; auto.
+          + intros Hv. apply (Permutation_in _ (Permutation_sym (hp_push_perm _ _ _ _ _))). destruct Hv as [->|Hv]; [left; reflexivity|right; exact Hv].
         - apply hp_update_some in Hup as [Hin Hperm]. intros v. split.
           + intros Hv. right. apply (Permutation_in _ Hperm); exact Hv.
           + intros [->|Hv]; apply (Permutation_in _ (Permutation_sym Hperm)); assumption. }
@@ -221,10 +224,7 @@ Section Opt.
   Proof.
     assert (Hlen : s < length (map (fun _ : nat => @None Z) (seq 0 (nv h)))) by (rewrite map_length, seq_length; exact Hs).
     assert (Hnone : forall v, nth v (map (fun _ : nat => @None Z) (seq 0 (nv h))) None = None).
-    { intros v. destruct (lt_dec v (nv h)) as [Hv|Hv].
-      - rewrite (nth_indep _ None ((fun _ : nat => @None Z) 0)) by (rewrite map_length, seq_length; exact Hv).
-        rewrite map_nth. reflexivity.
-      - apply nth_overflow. rewrite map_length, seq_length. lia. }
+    { intros v. apply dz_nth_all_none. }
     assert (Hd : forall v d, Dd (dj_init Z 0%Z (nv h) s) v d -> v = s /\ d = 0%Z).
     { intros v d. unfold Dd, dj_init; cbn [dj_dist]. destruct (Nat.eq_dec v s) as [->|Hv].
       - rewrite nth_set_nth_eq by exact Hlen. intros E; injection E as <-. auto.
@@ -356,3 +356,20 @@ Section Opt.
     apply (dz_loop (S (nv h)) _ []); [apply dj_init_inv; exact Hs|apply dz_init_inv|cbn [length]; lia].
   Qed.
 End Opt.
+
+(* the statement without the auxiliary records *)
+Theorem dijkstra_correct h wts s :
+  (forall e x y, ends h e = Some (x, y) -> x < nv h /\ y < nv h) -> s < nv h ->
+  (forall e, (0 <= nth e wts 0)%Z) ->
+  exists dist pred,
+    dijkstra Z 0%Z Z.add Z.ltb h wts s = DjOk dist pred
+    /\ nth s dist None = Some 0%Z
+    /\ (forall p v, walk h s p v -> exists dv, nth v dist None = Some dv /\ (dv <= weight wts (wedges p))%Z)
+    /\ (forall w e, nth w pred None = Some e ->
+          exists p dp dw, joins h e w p /\ nth p dist None = Some dp /\ nth w dist None = Some dw
+                          /\ dw = (dp + nth e wts 0)%Z).
+Proof.
+  intros Hwf Hs Hnn. destruct (dijkstra_total_opt h Hwf wts s Hs Hnn) as (dist & pred & ord & E & HT).
+  exists dist, pred. split; [exact E|]. split; [apply (dt_src _ _ _ _ _ _ HT)|]. split; [apply (dt_min _ _ _ _ _ _ HT)|].
+  apply (dt_pred _ _ _ _ _ _ HT).
+Qed.
